@@ -289,8 +289,8 @@ func genC09(g *Gen) {
 			}
 		}
 	}
-	for _, sz := range g.WithRandomSizes([]int{63, 64, 65, 127, 128, 129, 255, 256, 257, 1000, 1025, 4097}, g.Pick(6, 40), 2, g.Pick(260, 5000)) {
-		if sz > g.Pick(260, 5000) {
+	for _, sz := range g.WithRandomSizes([]int{63, 64, 65, 127, 128, 129, 255, 256, 257, 1000, 1025, 4097}, g.Pick(6, 10), 2, g.Pick(260, 2600)) {
+		if sz > g.Pick(260, 4100) {
 			continue
 		}
 		for _, c := range []rune{'a', '"', ',', '\n', ' ', 0x416, 0xFFFE} {
